@@ -267,6 +267,9 @@ type Outcome struct {
 	Violations  []Viol
 	SelfCheck   []string // harness self-check failures (exit 2)
 	Start       time.Time
+	// MergeSection, when set, makes Finish add this outcome as a section of the evidence file an
+	// earlier stage of the same check has just written, instead of replacing that file.
+	MergeSection string
 }
 
 // Finish classifies violations against the known findings, writes replay files and the evidence
@@ -322,6 +325,19 @@ func Finish(o *Outcome) int {
 		ev.Coverage = map[string]interface{}{}
 	}
 	ev.Coverage["known_findings_met"] = len(seenKnown)
+	if o.MergeSection != "" {
+		var prev Evidence
+		pb, err := os.ReadFile(filepath.Join(Root, "evidence", o.Property+".json"))
+		if err != nil || json.Unmarshal(pb, &prev) != nil || prev.Coverage == nil || prev.Tier != string(o.Tier) {
+			fmt.Printf("SELF-CHECK property=%s the first stage's evidence file is missing or of another tier\n", o.Property)
+			return 2
+		}
+		prev.Coverage[o.MergeSection] = ev.Coverage
+		prev.Assumptions = append(prev.Assumptions, ev.Assumptions...)
+		prev.WallS += ev.WallS
+		prev.Violations += ev.Violations
+		ev = prev
+	}
 	_ = os.MkdirAll(filepath.Join(Root, "evidence"), 0o755)
 	b, _ := json.MarshalIndent(ev, "", " ")
 	if err := os.WriteFile(filepath.Join(Root, "evidence", o.Property+".json"), b, 0o644); err != nil {
